@@ -32,6 +32,13 @@ func startSabotageBackend(w *World) *countingBackend {
 				up := websocket.Upgrader{CheckOrigin: func(*http.Request) bool { return true }}
 				if c, err := up.Upgrade(rw, r, nil); err == nil {
 					defer c.Close()
+					if strings.Contains(r.URL.Path, "ws-badframe") {
+						// a frame that violates the protocol (reserved bits set, bad opcode),
+						// then silence: the connection stays up
+						c.UnderlyingConn().Write([]byte{0xff, 0x05, 'h', 'e', 'l', 'l', 'o'})
+						time.Sleep(30 * time.Second)
+						return
+					}
 					if strings.Contains(r.URL.Path, "ws-bye") {
 						// says goodbye and hangs up at once
 						c.WriteMessage(websocket.TextMessage, []byte("goodbye"))
@@ -140,7 +147,7 @@ func worldC07(w *World) {
 	nBad := t.Range(1, 5, "sabotaged")
 	kinds := []string{"reset-before-headers", "reset-mid-body", "close-mid-body", "garbage", "bad-header", "bad-chunk", "hang-then-close"}
 	if shim {
-		kinds = append(kinds, "shim-garbage-open", "shim-garbage-data", "shim-garbage-poll", "shim-unknown-close", "shim-odd-blob", "shim-odd-blob", "shim-data-close-race", "shim-data-close-race", "shim-hangup-before-poll")
+		kinds = append(kinds, "shim-garbage-open", "shim-garbage-data", "shim-garbage-poll", "shim-unknown-close", "shim-odd-blob", "shim-odd-blob", "shim-data-close-race", "shim-data-close-race", "shim-hangup-before-poll", "shim-bad-frame")
 	}
 	type creq struct {
 		tok    string
@@ -228,6 +235,19 @@ func worldC07(w *World) {
 			rg.Wait()
 			w.K.Count("fault.shim_data_racing_close")
 			req, _ = http.NewRequest("POST", "http://proxy:80/shim/close", strings.NewReader(`{"id":"`+sid+`"}`))
+		case "shim-bad-frame":
+			// the backend sends a frame that is not valid websocket; polls and data follow
+			sc := newShimClient(w, 1)
+			st, rep, _, err := sc.open("ws://example.test/ws-badframe-" + r.tok)
+			sid := "1"
+			if err == nil && st == 200 && rep != nil {
+				sid = rep.ID
+			}
+			time.Sleep(100 * time.Millisecond)
+			sc.poll(sid, 1)
+			sc.data(sid, 1, []wsMsg{{Data: []byte("after the bad frame")}})
+			w.K.Count("fault.shim_backend_sends_invalid_frame")
+			req, _ = http.NewRequest("POST", "http://proxy:80/shim/poll", strings.NewReader(`{"id":"`+sid+`"}`))
 		case "shim-hangup-before-poll":
 			// the backend sends a message and hangs up; the poll only comes afterwards
 			sc := newShimClient(w, 1)
